@@ -471,6 +471,7 @@ contract(
     # the body is verified for duplicate-free id lists (a dict comprehension keyed by the ids collapses duplicates; callers are
     # not asked to establish this: recorded restriction)
     entry_assume=lambda c: And(_distinct_ids(c), O_injective(), _local(c), _sinv(c), Or(_wf_requested(c), _verify_on(c))),
+    assumes=['the requested ids are pairwise distinct (a dict comprehension keyed by the ids would collapse duplicates: recorded restriction)', 'the object path is injective in the id (C01: proved for the fan-out layout for ids of length >= 2)', 'the store sits on a local filesystem and its algorithm name is an algorithm name', 'StateInv holds at entry', 'WF(requested): a requested object already in the store is intact or write-protected -- or the store verifies'],
     props=["C07", "C15", "C01", "C11"],
     doc="order inside add: pre-copy check, copy, post-copy check, protect, then state rows; a mismatching object is never "
         "write-protected (crash condition after every mutating call) and, under verify, never retained",
